@@ -5,9 +5,9 @@ package main
 
 import (
 	"fmt"
-	"os"
 	"math/big"
 	"math/rand"
+	"os"
 	"sort"
 	"strings"
 
@@ -34,22 +34,22 @@ type HistOpts struct {
 }
 
 type HistRun struct {
-	C       *Ctx
-	Case    int
-	Opts    *HistOpts
-	G       *Gen
-	R       *Replica
-	M       *Model
-	Sim     *TMSim
-	Blocks  []*BlockSpec
-	Txs     [][]*TxInfo
-	Results []*BlockResult
-	AppHash []byte
-	Issues  []Issue
-	Total0  *big.Int // genesis total value
-	Total   *big.Int // expected running total (genesis + minted - burned)
-	Aborted string
-	Times   map[int64]int64
+	C        *Ctx
+	Case     int
+	Opts     *HistOpts
+	G        *Gen
+	R        *Replica
+	M        *Model
+	Sim      *TMSim
+	Blocks   []*BlockSpec
+	Txs      [][]*TxInfo
+	Results  []*BlockResult
+	AppHash  []byte
+	Issues   []Issue
+	Total0   *big.Int // genesis total value
+	Total    *big.Int // expected running total (genesis + minted - burned)
+	Aborted  string
+	Times    map[int64]int64
 	Accepted map[string]int
 	Dir      string
 	Died     *ErrDead
@@ -405,6 +405,15 @@ func runHistory(c *Ctx, caseIdx int, rng *rand.Rand, o *HistOpts) *HistRun {
 		hr.Issues = append(hr.Issues, so.Issues...)
 		zeroHash := strings.Repeat("0", 64)
 		lostGenesis := int64(0)
+		if h == 1 {
+			blockTx := map[string]bool{}
+			for _, t := range txs {
+				blockTx[t.Hash] = true
+			}
+			if n := adoptGenesisStakeIDs(so.Expected, obs, blockTx); n > 0 {
+				c.Count("genesis-stake-ids-adopted-from-observation", n)
+			}
+		}
 		for _, df := range diffStates(so.Expected, obs) {
 			if (df.Area == "reward" || df.Area == "reward.detail") && so.RewardRange != nil {
 				// warm-up: accept any issuance inside the admissible range (see model)
